@@ -437,6 +437,8 @@ type observation struct {
 	Panic string `json:"panic,omitempty"`
 	Site  string `json:"panic_site,omitempty"`
 	Hang  bool   `json:"hang,omitempty"`
+	// the error is a panic that plush recovered (a runtime.Error, or reflect's own panic message) and reported
+	Recovered bool `json:"recovered_panic,omitempty"`
 }
 
 var hangCount, slowCount int32
@@ -460,6 +462,8 @@ func guarded(timeout time.Duration, f func() (string, error)) observation {
 			o.IsErr = true
 			o.Err = err.Error()
 			o.Wraps = errors.Is(err, errSentinel)
+			var re runtime.Error
+			o.Recovered = errors.As(err, &re) || strings.Contains(o.Err, "function: reflect")
 		}
 	}()
 	select {
@@ -523,7 +527,9 @@ func panicSite(stack string) string {
 		isPlush := strings.HasPrefix(l, "github.com/gobuffalo/plush/v5") && !strings.Contains(l, "verif")
 		// (the autogenerated wrapper of a value method reached through a nil pointer is not the data's code:
 		// whoever calls such a method must check the pointer)
-		if first && !isPlush && !strings.Contains(stack, "called using nil *") && !strings.HasPrefix(l, "runtime.") && !strings.HasPrefix(l, "reflect.") && !strings.HasPrefix(l, "main.guarded") {
+		// (only the harness's own data types count as the data's code: a panic inside a library function that plush
+		// called with a value it should have checked -- a nil *regexp.Regexp, say -- is plush's)
+		if first && !isPlush && !strings.Contains(stack, "called using nil *") && strings.HasPrefix(l, "main.") && !strings.HasPrefix(l, "main.guarded") {
 			if i := strings.LastIndex(l, "("); i > 0 {
 				l = l[:i]
 			}
